@@ -13,6 +13,7 @@ package ebnf
 
 import (
 	"reflect"
+	"strconv"
 
 	"github.com/alecthomas/participle/v2"
 	"github.com/alecthomas/participle/v2/lexer"
@@ -411,6 +412,244 @@ func VH_C14_Generated() {
 	vAssert(got.star == want.star && got.plus == want.plus && got.quest == want.quest && got.bang == want.bang, "C14: a modifier of the grammar is missing from the EBNF")
 	vAssert(got.lits == want.lits && got.toks == want.toks, "C14: a literal or token reference of the grammar is missing from the EBNF")
 	vAssert(got.refs == want.refs, "C14: a production reference of the grammar is missing from the EBNF")
+	vhStructEqual(root, ast)
 	vObserve("ebnf", text)
+	vReach("grammar")
+}
+
+// ---------- structural comparison of the EBNF with the generated grammar ----------
+//
+// Both sides are brought to one canonical shape: captures are transparent,
+// plain groups and one-element sequences/choices are dropped, nested
+// sequences in sequences (and choices in choices) are flattened.
+
+type vhShape struct {
+	kind string // lit tok ref seq alt neg la nla rep
+	text string // literal text, token name, repetition
+	kids []*vhShape
+}
+
+func vhFlat(kind string, kids []*vhShape) *vhShape {
+	var out []*vhShape
+	for _, k := range kids {
+		if k.kind == kind {
+			out = append(out, k.kids...)
+		} else {
+			out = append(out, k)
+		}
+	}
+	if len(out) == 1 {
+		return out[0]
+	}
+	return &vhShape{kind: kind, kids: out}
+}
+
+func vhShapeOfRx(e *rx) *vhShape {
+	switch e.kind {
+	case kLit, kTLit:
+		return &vhShape{kind: "lit", text: e.s}
+	case kRef:
+		return &vhShape{kind: "tok", text: vhLower(e.typ)}
+	case kSeq, kAlt:
+		var kids []*vhShape
+		for _, k := range e.kids {
+			kids = append(kids, vhShapeOfRx(k))
+		}
+		if e.kind == kSeq {
+			return vhFlat("seq", kids)
+		}
+		return vhFlat("alt", kids)
+	case kCap:
+		return vhShapeOfRx(e.kids[0])
+	case kSub:
+		return &vhShape{kind: "ref"}
+	case kNeg:
+		return &vhShape{kind: "neg", kids: []*vhShape{vhShapeOfRx(e.kids[0])}}
+	case kLA:
+		k := "la"
+		if e.neg {
+			k = "nla"
+		}
+		return &vhShape{kind: k, kids: []*vhShape{vhShapeOfRx(e.kids[0])}}
+	case kGrp:
+		body := vhShapeOfRx(e.kids[0])
+		switch e.mode {
+		case mOpt:
+			return &vhShape{kind: "rep", text: "?", kids: []*vhShape{body}}
+		case mStar:
+			return &vhShape{kind: "rep", text: "*", kids: []*vhShape{body}}
+		case mPlus:
+			return &vhShape{kind: "rep", text: "+", kids: []*vhShape{body}}
+		case mNonEmpty:
+			return &vhShape{kind: "rep", text: "!", kids: []*vhShape{body}}
+		}
+		return body
+	}
+	panic("unknown rx kind")
+}
+
+func vhLower(s string) string {
+	b := []byte(s)
+	for i, c := range b {
+		if c >= 'A' && c <= 'Z' {
+			b[i] = c + 32
+		}
+	}
+	return string(b)
+}
+
+func vhShapeOfExpr(x *Expression) *vhShape {
+	var alts []*vhShape
+	for _, s := range x.Alternatives {
+		var terms []*vhShape
+		for _, t := range s.Terms {
+			terms = append(terms, vhShapeOfTerm(t))
+		}
+		alts = append(alts, vhFlat("seq", terms))
+	}
+	return vhFlat("alt", alts)
+}
+
+func vhShapeOfTerm(t *Term) *vhShape {
+	var base *vhShape
+	switch {
+	case t.Name != "":
+		base = &vhShape{kind: "ref"}
+	case t.Literal != "":
+		text, err := strconv.Unquote(t.Literal)
+		vAssert(err == nil, "C14: a literal of the EBNF is not a Go string literal")
+		base = &vhShape{kind: "lit", text: text}
+	case t.Token != "":
+		base = &vhShape{kind: "tok", text: t.Token}
+	default:
+		inner := vhShapeOfExpr(t.Group.Expr)
+		switch t.Group.Lookahead {
+		case LookaheadAssertionPositive:
+			base = &vhShape{kind: "la", kids: []*vhShape{inner}}
+		case LookaheadAssertionNegative:
+			base = &vhShape{kind: "nla", kids: []*vhShape{inner}}
+		default:
+			base = inner
+		}
+	}
+	// ~ binds to the operand, the modifier to the negated operand
+	if t.Negation {
+		base = &vhShape{kind: "neg", kids: []*vhShape{base}}
+	}
+	if t.Repetition != "" {
+		base = &vhShape{kind: "rep", text: t.Repetition, kids: []*vhShape{base}}
+	}
+	return base
+}
+
+func vhSameShape(a, b *vhShape) bool {
+	if a.kind != b.kind || a.text != b.text || len(a.kids) != len(b.kids) {
+		return false
+	}
+	for i := range a.kids {
+		if !vhSameShape(a.kids[i], b.kids[i]) {
+			return false
+		}
+	}
+	return true
+}
+
+// vhStructEqual: every generated production has a production of the EBNF with
+// the same structure (the union root's member list comes first).
+func vhStructEqual(root *ggProd, ast *EBNF) {
+	seen := map[reflect.Type]bool{}
+	var walk func(p *ggProd)
+	walk = func(p *ggProd) {
+		if seen[p.rt] {
+			return
+		}
+		seen[p.rt] = true
+		want := vhShapeOfRx(p.expr)
+		found := false
+		for _, pr := range ast.Productions[1:] {
+			if vhSameShape(want, vhShapeOfExpr(pr.Expression)) {
+				found = true
+			}
+		}
+		vAssert(found, "C14: no production of the EBNF has the structure of a production of the grammar (an operator is lost, altered or applied to the wrong operand)")
+		for _, sub := range p.subs {
+			if sub != nil {
+				walk(sub)
+			}
+		}
+	}
+	walk(root)
+}
+
+// ---------- a modified, captured group as the whole body of a production ----------
+
+type vgWholeAlt struct {
+	Signs []string `@( "+" | "-" )*`
+}
+type vgWholeSeq struct {
+	Path []string `@( A "." )+`
+}
+type vgWholeOpt struct {
+	O string `( @A B )?`
+}
+type vgWhole struct {
+	S *vgWholeAlt `@@`
+	P *vgWholeSeq `@@`
+	O *vgWholeOpt `@@`
+	L string      `(?! @( "a" | "b" )+ ) @A`
+}
+
+func vhLit(s string) *vhShape { return &vhShape{kind: "lit", text: s} }
+func vhTok(s string) *vhShape { return &vhShape{kind: "tok", text: s} }
+func vhRep(m string, k *vhShape) *vhShape {
+	return &vhShape{kind: "rep", text: m, kids: []*vhShape{k}}
+}
+func vhKids(kind string, kids ...*vhShape) *vhShape { return &vhShape{kind: kind, kids: kids} }
+
+func VH_C14_Grammar_WholeBody() {
+	p, err := participle.Build[vgWhole](participle.Lexer(vhLexDef))
+	vAssert(err == nil, "catalogue grammar must build")
+	ast := vhGrammarRoundTrip(p.String(), "VgWhole")
+	want := map[string]*vhShape{
+		"VgWholeAlt": vhRep("*", vhKids("alt", vhLit("+"), vhLit("-"))),
+		"VgWholeSeq": vhRep("+", vhKids("seq", vhTok("a"), vhLit("."))),
+		"VgWholeOpt": vhRep("?", vhKids("seq", vhTok("a"), vhTok("b"))),
+		"VgWhole": vhKids("seq", &vhShape{kind: "ref"}, &vhShape{kind: "ref"}, &vhShape{kind: "ref"},
+			vhKids("nla", vhRep("+", vhKids("alt", vhLit("a"), vhLit("b")))), vhTok("a")),
+	}
+	n := 0
+	for _, pr := range ast.Productions {
+		if w, ok := want[pr.Production]; ok {
+			n++
+			vAssert(vhSameShape(w, vhShapeOfExpr(pr.Expression)), "C14: a modifier of the grammar is applied to the wrong operand in the EBNF")
+		}
+	}
+	vAssert(n == len(want), "C14: a production of the grammar is missing from the EBNF")
+	vObserve("ebnf", p.String())
+	vReach("grammar")
+}
+
+// ---------- negation of operands that carry operators themselves ----------
+
+type vgNegShapes struct {
+	A string `~( "a"? ) @A`
+	B string `~( ~"a" ) @A`
+	C string `( ~( "a" | "b" ) )* @A`
+	D string `~( "a" "b" )? ~(?= "a" ) @A`
+}
+
+func vhNeg(k *vhShape) *vhShape { return vhKids("neg", k) }
+
+func VH_C14_Grammar_Negations() {
+	p, err := participle.Build[vgNegShapes](participle.Lexer(vhLexDef))
+	vAssert(err == nil, "catalogue grammar must build")
+	ast := vhGrammarRoundTrip(p.String(), "VgNegShapes")
+	want := vhKids("seq",
+		vhNeg(vhRep("?", vhLit("a"))), vhTok("a"),
+		vhNeg(vhNeg(vhLit("a"))), vhTok("a"),
+		vhRep("*", vhNeg(vhKids("alt", vhLit("a"), vhLit("b")))), vhTok("a"),
+		vhRep("?", vhNeg(vhKids("seq", vhLit("a"), vhLit("b")))), vhNeg(vhKids("la", vhLit("a"))), vhTok("a"))
+	vAssert(vhSameShape(want, vhShapeOfExpr(ast.Productions[0].Expression)), "C14: ~ or a modifier of the grammar is applied to the wrong operand in the EBNF")
+	vObserve("ebnf", p.String())
 	vReach("grammar")
 }
